@@ -12,13 +12,20 @@ Check =
     SortByValueCollator) is run in Coq on the exact PUBLIC values of the measure the transform names
     (floats of an untransformed run as exact rationals) and compared with row_order()/column_order()
     (signed and 'ins_N') of the run with the transform; for a keyword that is sorted on a surrogate,
-    permutations inside classes of exactly equal public values are tolerated;
+    permutations inside classes of exactly equal public values are tolerated; the model's measures
+    object (slice_measures / strand_measures) gets the DIFFERENCE flags of the subtotals of both
+    dimensions, read from the raw insertion dicts: the population proportions are NaN there (as
+    _PopulationProportions since /repo e7676546, former finding C08-population-difference-subtotals);
 (b) oracle on the implementation alone, straight from the property text: along the reported order the
     PUBLIC measure named in the transform is monotone in the requested direction over the displayed
     non-fixed base elements, NaN-valued ones last in payload order; fixed top / bottom ids bracket them
     in listed order (an id named more than once counts where it is first mentioned, top before bottom); the subtotals are one group, sorted the same way, first when descending and last
     when ascending; when the key cannot be resolved (unknown element / insertion id, unknown keyword,
     measure not in the response) the order equals the order of the same run WITHOUT the order transform.
+    No exception for the `population` keyword: a difference subtotal (public population count NaN) stands
+    last in payload order in its group, and a sort keyed on an opposing difference insertion (every
+    public value NaN) leaves body and subtotal group in payload order; a directed stream generates both
+    situations in every run.
 """
 import ast
 import copy
@@ -376,6 +383,72 @@ def gen_repeat_case(rng, k, tables, kw_cycle):
     return case
 
 
+def raw_insertions(case, key):
+    """the insertion dicts dimension `key` of the case takes its subtotals from (transform list when
+    the key is there, else the view's)"""
+    t = (case["transforms"].get(key) or {})
+    if "insertions" in t:
+        return t["insertions"] or []
+    try:
+        dds = ou.displayed_dim_dicts(case["response"])
+        dds = dds[-1:] if case["strand"] else dds[-2:]
+        dd = dds[0 if key == "rows_dimension" else 1]
+        return (((dd.get("references") or {}).get("view") or {}).get("transform") or {}).get(
+            "insertions") or []
+    except (IndexError, KeyError, TypeError, AttributeError):
+        return []
+
+
+def is_difference_dict(d):
+    return isinstance(d, dict) and bool((d.get("kwargs") or {}).get("negative"))
+
+
+def gen_population_difference_case(rng, k, tables, tries=60):
+    """separate stream, the situations of former finding C08-population-difference-subtotals: a sort by
+    the `population` keyword (a) on a dimension whose subtotal group holds a difference, (b) keyed on an
+    opposing insertion that is a difference.  Same generator as every other case (rejection on the raw
+    dicts, then the order is pointed at the difference); the checks are the same as everywhere."""
+    case = None
+    for _ in range(tries):
+        c = gen_case(rng, k, tables, ["population"], p_fixed=0.25)
+        keys = ["rows_dimension"] if c["strand"] else ["rows_dimension", "columns_dimension"]
+        diffs = {key: [d for d in raw_insertions(c, key) if is_difference_dict(d)] for key in keys}
+        if not any(diffs.values()):
+            continue
+        sorted_keys = [key for key in keys if isinstance((c["transforms"].get(key) or {}).get("order"), dict)]
+        if not sorted_keys:
+            continue
+        case = c
+        want_b = (not c["strand"]) and rng.random() < 0.5
+        done = False
+        for key in sorted_keys:
+            o = c["transforms"][key]["order"]
+            other = None if c["strand"] else [x for x in keys if x != key][0]
+            o["measure"] = "population"
+            if want_b and other and diffs[other] and not done:
+                d = rng.choice(diffs[other])
+                ins = raw_insertions(c, other)
+                o["type"] = "opposing_insertion"
+                o["insertion_id"] = d["id"] if isinstance(d.get("id"), int) else ins.index(d) + 1
+                o.pop("element_id", None)
+                done = True
+            elif diffs[key] and not done:
+                if c["strand"]:
+                    o["type"] = "univariate_measure"
+                elif o.get("type") not in ("opposing_element", "opposing_insertion"):
+                    o["type"] = "opposing_element"
+                    o.pop("marginal", None)
+                done = True
+        if done:
+            break
+    if case is None:
+        case = gen_case(rng, k, tables, ["population"])
+    if case.get("population") is None:
+        case["population"] = rng.choice([1000, 7.5, 250000])
+    case["population_difference"] = True
+    return case
+
+
 # ------------------------------------------------------------------------------------
 # reading the implementation
 # ------------------------------------------------------------------------------------
@@ -492,6 +565,24 @@ def valid_sources(m):
     return out
 
 
+def difference_flags(m):
+    """_Subtotal.is_difference of the subtotals of dimension model m, in payload order, from the RAW
+    insertion dicts: a "negative" term that is a valid element id"""
+    if m.array:
+        return []
+    ids = set(x for x in m.ids if not isinstance(x, (list, dict)))
+    src = m.source_list() or []
+    out = []
+    for j in valid_sources(m):
+        neg = (src[j].get("kwargs") or {}).get("negative") or []
+        out.append(any((not isinstance(t, (list, dict))) and t in ids for t in neg))
+    return out
+
+
+def g_flags(flags):
+    return g_list([g_bool(bool(f)) for f in flags])
+
+
 def prepare(case, tables):
     strand = case["strand"]
     resp, tr, pop = case["response"], case["transforms"], case.get("population")
@@ -527,6 +618,14 @@ def prepare(case, tables):
     nr, nrs, nc, ncs = info
     keys = ["rows_dimension"] if strand else ["rows_dimension", "columns_dimension"]
     views, terms = [], []
+    # difference flags of the subtotals of each dimension (raw dicts); they must be as many as the
+    # subtotals the implementation reports
+    try:
+        flags = [difference_flags(m) for m in ms]
+    except (AttributeError, TypeError) as e:
+        return ("skip", "unsupported:insertion-dicts %s" % type(e).__name__)
+    if [len(f) for f in flags] != ([nrs] if strand else [nrs, ncs]):
+        return ("skip", "unsupported:subtotal-count")
     from cr.cube.enums import DIMENSION_TYPE as DT
     for k, key in enumerate(keys):
         od_raw = (tr.get(key) or {}).get("order")
@@ -623,21 +722,20 @@ def prepare(case, tables):
             return ("skip", "unsupported:label %s" % e)
         emp_t = g_list([g_nat(i) for i in v.m.empties])
         if strand:
-            term = "run_strand %s %s %s %s %s %s" % (v.m.term, oreq, venv_term, labels_t, sublabels_t, emp_t)
+            term = "run_strand %s %s %s %s %s %s %s" % (
+                v.m.term, oreq, g_flags(flags[0]), venv_term, labels_t, sublabels_t, emp_t)
         elif k == 0:
-            term = "run_rows %s %s %s %s %s %s %s %s %s" % (
-                v.m.term, oreq, opp_term, env_term, marg_term, labels_t, sublabels_t, emp_t,
-                ou.psub_term(ms[1]))
+            term = "run_rows %s %s %s %s %s %s %s %s %s %s %s" % (
+                v.m.term, oreq, opp_term, g_flags(flags[0]), g_flags(flags[1]), env_term, marg_term,
+                labels_t, sublabels_t, emp_t, ou.psub_term(ms[1]))
         else:
-            term = "run_columns %s %s %s %s %s %s %s %s" % (
-                v.m.term, oreq, opp_term, env_term, labels_t, sublabels_t, emp_t, ou.psub_term(ms[0]))
+            term = "run_columns %s %s %s %s %s %s %s %s %s %s" % (
+                v.m.term, oreq, opp_term, g_flags(flags[0]), g_flags(flags[1]), env_term, labels_t,
+                sublabels_t, emp_t, ou.psub_term(ms[0]))
         terms.append(term)
-        # difference subtotals of the sorted dimension (for the finding class)
-        v.diff_subs = [j for j, s in enumerate(v.idim.subtotals) if len(s.subtrahend_idxs) > 0]
-        # insertion ids of the difference subtotals of the OPPOSING dimension (same finding class:
-        # their public population estimate is NaN while the sort key is their numeric proportion)
-        v.opp_diff_ids = ([] if strand else
-                          [s.insertion_id for s in idims[1 - k].subtotals if len(s.subtrahend_idxs) > 0])
+        # difference subtotals of the sorted dimension / of the opposing one (coverage only)
+        v.diff_subs = [j for j, f in enumerate(flags[k]) if f]
+        v.opp_diff_flags = [] if strand else list(flags[1 - k])
         views.append(v)
     return {"obs": obs, "views": views, "terms": terms, "info": info}
 
@@ -864,24 +962,12 @@ def compare_model(v, dec, obs, exp):
     return fails, tie_tolerated
 
 
-def finding_class(v, group):
-    kw = v.od.get("measure")
-    if kw == "population" and v.diff_subs and group in ("subtotals",):
-        return "population-difference-subtotal"
-    # the same defect seen from the other side: sorting by the population of an opposing DIFFERENCE
-    # insertion - every public value is NaN, the key is the numeric proportion of the difference
-    if (kw == "population" and v.od.get("type") == "opposing_insertion"
-            and v.od.get("insertion_id") in getattr(v, "opp_diff_ids", [])):
-        return "population-difference-subtotal"
-    return "other"
-
-
 # ------------------------------------------------------------------------------------
 
 
 def _replayable(case):
     return {k: case.get(k) for k in ("response", "transforms", "strand", "population", "k", "kinds",
-                                     "repeats")}
+                                     "repeats", "population_difference")}
 
 
 def run_cases(rep, cases, tables):
@@ -904,6 +990,8 @@ def run_cases(rep, cases, tables):
         rep.count_case(rc, bool(p["views"]))
         if case.get("repeats"):
             rep.dist("stream:repeated-fixed-ids")
+        if case.get("population_difference"):
+            rep.dist("stream:population-difference-subtotals")
         rep.dist("strand" if case["strand"] else "slice")
         rep.dist("kinds:" + "x".join(str(x) for x in case.get("kinds") or []))
         rep.sample({"transforms": case["transforms"], "strand": case["strand"],
@@ -940,6 +1028,16 @@ def run_cases(rep, cases, tables):
                     rep.dist("with-subtotals")
                 if v.diff_subs:
                     rep.dist("with-difference-subtotals")
+                if kw == "population" and v.typ != "marginal":
+                    if v.diff_subs and len(svs) > 1:
+                        rep.dist("population:difference-in-sorted-subtotal-group")
+                    if v.diff_subs and any(not is_nan(x) for x in svs):
+                        rep.dist("population:difference-beside-valued-subtotal")
+                    if (v.typ == "opposing_insertion" and not v.opp_array
+                            and v.in_val in v.opp_ins_ids
+                            and v.opp_ins_ids.index(v.in_val) < len(v.opp_diff_flags)
+                            and v.opp_diff_flags[v.opp_ins_ids.index(v.in_val)]):
+                        rep.dist("population:key-at-opposing-difference")
                 if v.od.get("fixed"):
                     rep.dist("with-fixed-lists")
                     fx = [str(x) for x in (v.od["fixed"].get("top") or []) + (v.od["fixed"].get("bottom") or [])]
@@ -955,10 +1053,10 @@ def run_cases(rep, cases, tables):
                 rep.violation("oracle:" + what, rc,
                               dict(detail, what=what, axis=v.axis, order_transform=v.od,
                                    expectation=exp[0]),
-                              {"what": what, "cls": finding_class(v, grp)})
+                              {"what": what, "group": grp})
             for what, detail, grp in mfails:
                 rep.violation("impl-vs-model", rc, dict(detail, what=what, axis=v.axis, order_transform=v.od),
-                              {"what": what, "cls": finding_class(v, grp)})
+                              {"what": what, "group": grp})
     return coq_s, len(terms)
 
 
@@ -1067,12 +1165,20 @@ def run(tier, seed):
     kw_cycle = [c.split(":", 1)[1] for c in cycle]
     cases = [gen_case(rng, k, tables, kw_cycle) for k in range(n_cases)]
     cases += [gen_repeat_case(rng, n_cases + k, tables, kw_cycle) for k in range(60 if tier == "quick" else 600)]
+    # own generator state: the streams above stay what they were for a given seed
+    rng_pd = random.Random("C08-population-difference-%s" % seed)
+    cases += [gen_population_difference_case(rng_pd, len(cases) + k, tables)
+              for k in range(80 if tier == "quick" else 800)]
     coq_s, n_terms = run_cases(rep, cases, tables)
     s2, n2 = run_scope(rep, rng, 600 if tier == "quick" else 7500)
     coq_s, n_terms = coq_s + s2, n_terms + n2
     # every sortable keyword must have been exercised with a resolvable key
     missing = [c for c in cycle if not rep.cov["distribution"].get("keyword:" + c)]
     rep.cov["keywords_not_exercised"] = missing
+    # the two situations of the former finding must have been met (with a resolvable key)
+    rep.cov["population_difference_classes_not_exercised"] = [
+        c for c in ("population:difference-beside-valued-subtotal", "population:key-at-opposing-difference")
+        if not rep.cov["distribution"].get(c)]
     rep.cov["rule"] = (
         "cases from random.Random(seed): CAT / CAT_DATE / MR / CA slices and CAT / CAT_DATE / MR strands "
         "(harness.props.common_cases: 0..40 respondents, dyadic weights incl. 0, view / transform "
@@ -1085,7 +1191,10 @@ def run(tier, seed):
         "descending / absent / junk, fixed top/bottom lists incl. stale ids, population "
         "0..250000 and filter fractions in [0,1] on a quarter of the population cases; + a 60-case stream (600 "
         "thorough) with ids repeated inside a fixed list and named at both ends, compared like the others (the "
-        "first mention counts); + small scope on SortByValueCollator.display_order itself: "
+        "first mention counts); + an 80-case stream (800 thorough, own generator state) of sorts by the "
+        "`population` keyword on a dimension with a difference subtotal in its subtotal group or keyed on an "
+        "opposing difference insertion (population_difference_classes_not_exercised must be []); "
+        "+ small scope on SortByValueCollator.display_order itself: "
         "value patterns {NaN,-inf,0,1,+inf}^4 x direction x 6 fixed configurations, two of them with repeated "
         "ids (subtotal values, hidden "
         "and pruned-empty sets cycled; 600 sampled in quick, all 7500 in thorough). non-trivial = "
